@@ -24,7 +24,8 @@ def parseEntry (s : String) : Option Entry :=
     let c ← bytesOfHex c
     let segs := (split p).filter (· != [])
     if k == "f" then some { path := segs, node := Node.file c }
-    else if k == "d" then some { path := segs, node := Node.dir } else none
+    else if k == "d" then some { path := segs, node := Node.dir }
+    else if k == "l" then some { path := segs, node := Node.link ((split c).filter (· != [])) } else none
   | _ => none
 
 def parseTree (s : String) : Option (List Entry) :=
@@ -53,9 +54,9 @@ def filesOutside (cfg : Cfg) : List Str :=
   cfg.tree.filterMap fun e =>
     match e.node with
     | Node.file c => if (rootSegs cfg).isPrefixOf (cfg.sb ++ e.path) then none else some c
-    | Node.dir => none
+    | _ => none
 
-def specVerdict (cfg : Cfg) (method path : Str) (encs : List Enc) (df : Str) (impl : String) : String :=
+def specVerdict0 (cfg : Cfg) (method path : Str) (encs : List Enc) (df : Str) (impl : String) : String :=
   match parseResp impl with
   | none => "FAIL:unparsable-result"
   | some r =>
@@ -87,6 +88,20 @@ def specVerdict (cfg : Cfg) (method path : Str) (encs : List Enc) (df : Str) (im
         else if r.body != [] || r.clen != none then "FAIL:error-with-body"
         else if impl != renderResp (serve (restrict cfg) method path encs df) then "FAIL:outside-root-influence"
         else "ok"
+
+
+/-- a link below the root whose target is not below the root -/
+def hasEscapingLink (cfg : Cfg) : Bool :=
+  cfg.tree.any fun e => match e.node with
+    | Node.link t => (rootSegs cfg).isPrefixOf (cfg.sb ++ e.path) && !(rootSegs cfg).isPrefixOf (cfg.sb ++ t)
+    | _ => false
+
+/-- the oracle; what a followed symbolic link that leaves the root causes is reported under its own class -/
+def specVerdict (cfg : Cfg) (method path : Str) (encs : List Enc) (df : Str) (impl : String) : String :=
+  let v := specVerdict0 cfg method path encs df impl
+  if (v == "FAIL:outside-root" || v == "FAIL:outside-root-influence" || v == "FAIL:unknown-body" || v == "FAIL:wrong-file") &&
+      hasEscapingLink cfg && impl == renderResp (serve cfg method path encs df) then "FAIL:symlink-leaves-root"
+  else v
 
 /-- conf = `<version hex>@<products>`; products = `_` or `<product hex>=<rule>/<rule>` joined by `&`;
     rule = `<hit>.<root rel hex>.<default file hex>` -/
@@ -141,14 +156,117 @@ def runHistory (op impl : String) : Ans :=
         | some r =>
           if impl == "goon" then "FAIL:rule-ignored"
           else specVerdict { tree := tree, sb := [sbName], root := r.root } m p encs r.df impl
-      let v := if v.startsWith "FAIL:" && v != "FAIL:directory-not-404" && v != "FAIL:bad-name-not-404" && cs.length > 1
+      let v := if v.startsWith "FAIL:" && v != "FAIL:directory-not-404" && v != "FAIL:bad-name-not-404" &&
+          v != "FAIL:symlink-leaves-root" && cs.length > 1
         then "FAIL:stale-conf-" ++ (v.drop 5).toString else v
       { model := model, verdict := v, tags := tags }
     | _, _, _, _, _, _, _ => bad
   | _ => bad
 
+/-- rule FILE: `<fileflag>@<version hex>@<products>`; products = `_` or `<product hex>=<rules|null>` joined by `&`;
+    rule = `<cond>.<cmd>.<nparams>.<root rel hex>.<default file hex>` -/
+def parseFConf (s : String) : Option FConf :=
+  match s.splitOn "@" with
+  | [flag, v, ps] => do
+    let v ← bytesOfHex v
+    let ps ← (if ps == "_" then some [] else (ps.splitOn "&").mapM fun x =>
+      match x.splitOn "=" with
+      | [p, rs] => do
+        let p ← bytesOfHex p
+        if rs == "null" then some (p, none) else
+        let rs ← (rs.splitOn "/").mapM fun r =>
+          match r.splitOn "." with
+          | [c, cmd, np, root, df] => do
+            let c ← c.toNat?
+            let cmd ← cmd.toNat?
+            let np ← np.toNat?
+            let root ← bytesOfHex root
+            let df ← bytesOfHex df
+            some ({ cond := c, cmd := cmd, nparams := np, root := slash :: sbName ++ slash :: root, df := df } : FRule)
+          | _ => none
+        some (p, some rs)
+      | _ => none)
+    some { fileOk := flag == "ok", version := v, products := ps }
+  | _ => none
+
+def parseMConf (s : String) : Option MConf :=
+  match s.splitOn "@" with
+  | [flag, v, es] => do
+    let v ← bytesOfHex v
+    let es ← (if es == "_" then some [] else (es.splitOn ",").mapM fun x =>
+      match x.splitOn ":" with
+      | [a, b] => do some ((← bytesOfHex a), (← bytesOfHex b))
+      | _ => none)
+    some { fileOk := flag == "ok", version := v, entries := es }
+  | _ => none
+
+def bits (l : List Bool) : String := String.mk (l.map fun b => if b then '1' else '0')
+
+/-- `sff c=<fconf>~…;mt=<mconf>~…|-;pr=<product>;m=…;p=…;ae=<header hex>;ec=…;tb=<TypeByExtension facts>;x=<n>;t=<tree>`
+    result `<load verdicts>|goon` or `<load verdicts>|<status>;<ce>;<cl>;<content-type hex|->;<body>` -/
+def runFiles (op impl : String) : Ans :=
+  let bad : Ans := { model := "bad-op", verdict := "skip" }
+  match ((op.drop 4).toString.splitOn ";") with
+  | [c, mt, pr, m, p, ae, ec, tb, _x, t] =>
+    match (kv c "c").bind (fun s => (s.splitOn "~").mapM parseFConf),
+          (kv mt "mt").bind (fun s => if s == "-" then some [] else (s.splitOn "~").mapM parseMConf),
+          (kv pr "pr").bind bytesOfHex, (kv m "m").bind bytesOfHex, (kv p "p").bind bytesOfHex,
+          (kv ae "ae").bind bytesOfHex, kv ec "ec",
+          (kv tb "tb").bind (fun s => if s == "_" then some [] else (s.splitOn ",").mapM fun x =>
+            match x.splitOn ":" with
+            | [a, b] => do some ((← bytesOfHex a), (← bytesOfHex b))
+            | _ => none),
+          (kv t "t").bind parseTree with
+    | some cs, some ms, some product, some m, some p, some ae, some ec, some facts, some tree =>
+      let sb := [sbName]
+      let encs := acceptedEncodings (ec == "1") ae
+      let sysType : Str → Str := fun ext => match facts.find? (fun f => f.1 == ext) with | some f => f.2 | none => []
+      let loads := bits (cs.map (fconfOk tree sb)) ++ "/" ++ bits (ms.map mconfOk)
+      let render := fun (rule : Option SRule) => match rule with
+        | none => "goon"
+        | some r =>
+          let cfg : Cfg := { tree := tree, sb := sb, root := r.root }
+          let resp := serve cfg m p encs r.df
+          let ct := if resp.status == 200 then contentType (mtableAfter ms) sysType (extOf (servedName cfg p encs r.df)) else none
+          toString resp.status ++ ";" ++ encName resp.enc ++ ";" ++
+            (match resp.clen with | some n => toString n | none => "-") ++ ";" ++
+            (match ct with | some x => hexField x | none => "-") ++ ";" ++ hexField resp.body
+      let model := loads ++ "|" ++ render (decidingRule (slookup (ftableAfter tree sb cs) product))
+      let rule := decidingRule (fInForce tree sb cs product)
+      let tags := ["files", "confs" ++ toString cs.length] ++
+        (if cs.any (fun c => !fconfOk tree sb c) then ["rejected-conf"] else []) ++
+        (if ms.length > 1 then ["mime-reload"] else []) ++
+        (if tree.any (fun e => match e.node with | Node.link _ => true | _ => false) then ["links"] else []) ++
+        (if rule.isSome then ["nt"] else [])
+      match impl.splitOn "|" with
+      | [li, ri] =>
+        let v :=
+          if li != loads then "FAIL:loader-verdict"
+          else match rule with
+            | none => if ri == "goon" then "ok" else "FAIL:served-without-rule"
+            | some r =>
+              if ri == "goon" then "FAIL:rule-ignored" else
+              match ri.splitOn ";" with
+              | [st, ce, cl, ct, b] =>
+                let cfg : Cfg := { tree := tree, sb := sb, root := r.root }
+                let v0 := specVerdict cfg m p encs r.df (";".intercalate [st, ce, cl, b])
+                if v0 != "ok" then v0
+                else if ri != render (some r) then "FAIL:content-type"
+                else if (ce == "gzip" && !specAccepts ae tokGzip) || (ce == "br" && !specAccepts ae tokBr) then "FAIL:variant-despite-q0"
+                else "ok"
+              | _ => "FAIL:unparsable-result"
+        let known := v == "FAIL:directory-not-404" || v == "FAIL:bad-name-not-404" || v == "FAIL:symlink-leaves-root" ||
+                     v == "FAIL:variant-despite-q0"
+        let v := if v.startsWith "FAIL:" && !known && v != "FAIL:loader-verdict" && cs.length > 1
+          then "FAIL:stale-conf-" ++ (v.drop 5).toString else v
+        { model := model, verdict := v, tags := tags }
+      | _ => { model := model, verdict := "FAIL:unparsable-result", tags := tags }
+    | _, _, _, _, _, _, _, _, _ => bad
+  | _ => bad
+
 def run (op impl : String) : Ans :=
   let bad : Ans := { model := "bad-op", verdict := "skip" }
+  if op.startsWith "sff " then runFiles op impl else
   if op.startsWith "sfh " then runHistory op impl else
   if op.startsWith "clean " then
     match bytesOfHex (op.drop 6).toString with
